@@ -43,15 +43,21 @@ def run_check(prop, tier, seed):
 
     for r in rej:
         sc = by_sc[r['sc']]
-        evn = r['event'].get('ev')
-        attributed = props.attribute(prop, sc, r)
-        rec = dict(property=prop, scenario=sc, conn=r['conn'], rejected_line=r['line'], rejected_event=r['event'],
-                   rule_groups=r['groups'], attributed_to=sorted(attributed), trace=r['lines'],
+        hit = None
+        attributed_all = set()
+        for fnd in r['findings']:
+            att = props.attribute(prop, sc, dict(event=fnd['event'], groups=fnd['groups']))
+            attributed_all |= att
+            if prop in att and hit is None:
+                hit = fnd
+        rec = dict(property=prop, scenario=sc, conn=r['conn'], findings=r['findings'],
+                   rejected_line=(hit or r['findings'][0])['line'], rejected_event=(hit or r['findings'][0])['event'],
+                   rule_groups=(hit or r['findings'][0])['groups'], attributed_to=sorted(attributed_all), trace=r['lines'],
                    worker_notes=notes_by_sc.get(r['sc'], []))
-        if prop not in attributed:
+        if hit is None:
             foreign.append(rec)
             continue
-        k = core.match_known(known, prop, sc, r)
+        k = core.match_known(known, prop, sc, dict(event=hit['event'], groups=hit['groups']))
         if k:
             known_hits.append((k, rec))
             continue
@@ -119,9 +125,10 @@ def replay(path):
     spec = props.PROPS[prop].get('trace_spec', 'GoatTrace.tla')
     acc, st, rej = core.validate_traces(spec, traces, work)
     for r in rej:
-        print('rejected at line %d: %s groups=%s' % (r['line'], json.dumps(r['event']), r['groups']))
-        for ln in r['lines'][max(0, r['line'] - 8):r['line'] + 1]:
-            print('   ', ln[:300])
+        for fnd in r['findings']:
+            print('rejected at line %d: %s groups=%s' % (fnd['line'], json.dumps(fnd['event']), fnd['groups']))
+            for ln in r['lines'][max(0, fnd['line'] - 8):fnd['line']]:
+                print('   ', ln[:300])
     print('VIOLATION property=%s replay=%s' % (prop, path) if rej else 'replay: trace accepted')
     return 1 if rej else 0
 
